@@ -309,17 +309,15 @@ func (m *MonC09) check(f *Fleet, n *Node, before int, when string) {
 	}
 	name, ok := f.NewestByInstance()[n.Name]
 	if !ok && !n.Native {
-		// shadow mode: nothing to publish if none of the written keys exists
-		app := f.state[n].AppDBIs()
-		any := false
-		for _, w := range ws {
-			if d, has := app[w.DBI]; has {
-				if _, present := d.Map()[w.Key]; present {
-					any = true
-				}
+		// shadow mode: nothing to publish unless a version originated here
+		// (a delete of a key that never existed, say, creates no version)
+		pending := len(f.UncapturedKeys(n)) > 0
+		for id := range m.origin[n] {
+			if !f.ShadowTaint[id] {
+				pending = true
 			}
 		}
-		if !any {
+		if !pending {
 			return
 		}
 	}
